@@ -128,6 +128,14 @@ def exc_kind(e):
     return 9
 
 
+def extend_cmd_code(cmd):
+    parts = cmd.split(' ')
+    if parts[0] != 'EXTENDCIRCUIT' or len(parts) not in (2, 3) or parts[1] != '0':
+        return [[9, 0]]
+    fps = parts[2].split(',') if len(parts) == 3 else []
+    return [[0, len(fps)]] + [[3, FP_REV.get('$' + f, UNKNOWN)] for f in fps]
+
+
 _quiet = []
 
 
@@ -295,6 +303,44 @@ class World:
             return exc_kind(ex)
         return self.raised
 
+    # -- build_circuit() and Tor's answer to the oldest outstanding EXTENDCIRCUIT
+    def build(self, rs, on_result):
+        """the application calls state.build_circuit(routers); returns the EXTENDCIRCUIT line as numbers
+        [(0, n), (3, r1), ..] (or a (9, kind) pair for anything else that was written)"""
+        routers = [type('Relay', (), {'id_hex': '$' + FP[r]})() for r in rs]
+        submitted = []
+        qc = self.proto.queue_command
+
+        def queue_command(cmd, *a, **kw):
+            # the protocol writes one command at a time: what is submitted is noted here, not on the transport
+            submitted.append(cmd.decode('ascii') if isinstance(cmd, bytes) else cmd)
+            return qc(cmd, *a, **kw)
+        self.proto.queue_command = queue_command
+        try:
+            d = self.state.build_circuit(routers, using_guards=False)
+        finally:
+            self.proto.queue_command = qc
+        d.addBoth(on_result)
+        self.pump()
+        out = []
+        for cmd in submitted:
+            out.extend(extend_cmd_code(cmd))
+        return out
+
+    def answer_build(self, n):
+        """Tor answers the oldest unanswered command (an EXTENDCIRCUIT): 250 EXTENDED n, or 551 when n is None"""
+        self.pump()
+        if not self.pending or not self.pending[0].startswith('EXTENDCIRCUIT'):
+            raise IndexError('no EXTENDCIRCUIT outstanding')
+        self.pending.pop(0)
+        self.raised = 0
+        try:
+            self.send('250 EXTENDED %d' % n if n is not None else "551 Couldn't start circuit")
+            self.pump()
+        except Exception as ex:
+            return exc_kind(ex)
+        return self.raised
+
     # -- dump of TorState.circuits / TorState.streams and the public attributes of their members
     def dump(self, raised):
         st = self.state
@@ -382,6 +428,29 @@ def enc_event(out, e):
         enc_list(out, kw, enc_pair)
 
 
+def enc_stim(out, e):
+    if e[0] in ('c', 's'):
+        enc_event(out, e)
+    elif e[0] == 'b':
+        enc_num(out, 2)
+        enc_list(out, e[1], enc_num)
+    elif e[0] == 'x':
+        enc_num(out, 3)
+        enc_num(out, e[1])
+    elif e[0] == 'xe':
+        enc_num(out, 4)
+    else:
+        raise ValueError(e)
+
+
+def enc_input2(cons, snap, stims):
+    out = []
+    enc_list(out, cons, enc_pair)
+    enc_list(out, list(snap), enc_event)
+    enc_list(out, list(stims), enc_stim)
+    return bytes(out)
+
+
 def enc_input(cons, snap, evs):
     out = []
     enc_list(out, cons, enc_pair)
@@ -420,4 +489,15 @@ def enc_obs(out, o):
 def enc_trace(tr):
     out = []
     enc_list(out, tr, enc_obs)
+    return bytes(out)
+
+
+def enc_obs2(out, o):
+    enc_obs(out, o)
+    enc_list(out, o.get('extra') or [], enc_pair)
+
+
+def enc_trace2(tr):
+    out = []
+    enc_list(out, tr, enc_obs2)
     return bytes(out)
